@@ -71,3 +71,48 @@ Definition run_procs (ps : list proc) (prio : list nat) (timeout : option Q) (cb
        jbool (spec_procs ps cb start timeout exc gone alive (g_rc g) (g_cb g) (g_now g)) ].
 
 Definition run_decode (st : Z) : jv := jres (decode_status st).
+
+(* ---- histories of one psutil.Popen object ---- *)
+Inductive pop :=
+| PoWait (t : option Q)   (* psutil's p.wait(t) *)
+| PoPoll                  (* p.poll(): the wrapped subprocess object asks the kernel, non-blocking *)
+| PoBlock                 (* p.communicate() / leaving `with` / subprocess's own wait: blocks until the exit *)
+| PoAdvance (dt : Q)
+| PoReuse                 (* the kernel hands the (reaped) PID to a stranger *)
+| PoOther.                (* any other public call *)
+
+Definition jsub (rc : option Z) (t : Q) : jv := JL [jopt JZ rc; jq t].
+
+(* once anybody has reaped the child, waitpid says ECHILD and the PID exists only if it was recycled *)
+Fixpoint run_pops (p : proc) (fuel : nat) (ops : list pop) (st : popen) (reaped reused : bool) (t : Q) : list jv :=
+  match ops with
+  | [] => []
+  | PoAdvance dt :: r => run_pops p fuel r st reaped reused (t + dt)
+  | PoOther :: r => run_pops p fuel r st reaped reused t
+  | PoReuse :: r => run_pops p fuel r st reaped (reaped || reused) t
+  | PoPoll :: r =>
+    match sub_rc st with
+    | Some z => jsub (Some z) t :: run_pops p fuel r st reaped reused t
+    | None =>
+      if ended_by p t
+      then let z := spec_code (p_status p) in jsub (Some z) t :: run_pops p fuel r (popen_collect st z) true reused t
+      else jsub None t :: run_pops p fuel r st reaped reused t
+    end
+  | PoBlock :: r =>
+    match sub_rc st, p_exit p with
+    | Some z, _ => jsub (Some z) t :: run_pops p fuel r st reaped reused t
+    | None, Some T =>
+      let t' := qmax T t in let z := spec_code (p_status p) in
+      jsub (Some z) t' :: run_pops p fuel r (popen_collect st z) true reused t'
+    | None, None => [JC "Hang" []]
+    end
+  | PoWait tm :: r =>
+    let W := if reaped then (fun _ _ _ => WEchild) else k_waitpid p in
+    let E := if reaped then (fun _ => reused) else k_exists p in
+    let '(res, st', t', sl) := popen_wait W E (p_pid p) st tm fuel t in
+    JL [jres res; jq t'; jqs sl; jnat (kcalls (ps_obj st'))]
+    :: run_pops p fuel r st' (reaped || match res with RInt _ => true | _ => false end) reused t'
+  end.
+
+Definition run_popen (p : proc) (start : Q) (ops : list pop) (fuel : nat) : jv :=
+  JL (run_pops p fuel ops new_popen false false start).
